@@ -52,6 +52,11 @@ func (c *Ctx) DeclareFunc(name string, args []string, ret string) {
 func (c *Ctx) AddAxiom(a *Axiom) {
 	c.mu.Lock()
 	defer c.mu.Unlock()
+	for _, b := range c.Axioms {
+		if b.Name == a.Name {
+			return
+		}
+	}
 	c.Axioms = append(c.Axioms, a)
 }
 
